@@ -79,6 +79,10 @@ def gather_programs(chk, quick, rng, W):
     cases.append({"files": rec, "cls": "recursive"})
     flat = {"foo/v1/flat.j5s": "package foo.v1\n\nobject Outer {\n\tfield inner object:Inner {\n\t\tflatten = true\n\t}\n\tfield name string\n}\n\nobject Inner {\n\tfield a string\n\tfield more object:Outer\n}\n"}
     cases.append({"files": flat, "cls": "recursive-flatten"})
+    # a list method whose item type contains itself (directly and through a second object), with list rules inside the cycle
+    reclist = open(os.path.join(vcheck.VERIF, "programs", "recursive_list.j5s")).read()
+    cases.append({"files": {"foo/v1/rec.j5s": reclist}, "cls": "recursive-list"})
+    cases.append({"files": {"foo/v1/rec.j5s": reclist.replace("field parent object:Node\n", "field parent oneof {\n\t\toption node object:Node\n\t\toption peer object:Peer\n\t}\n")}, "cls": "recursive-list"})
     j5st = {}
     for p in glob.glob(os.path.join(vcheck.REPO, "j5stest", "proto", "**", "*.j5s"), recursive=True):
         j5st[os.path.relpath(p, os.path.join(vcheck.REPO, "j5stest", "proto"))] = open(p).read()
